@@ -93,8 +93,10 @@ def main():
     for _ in range(n):
         c = gen.gen_solver_case(ck.rng, ck.tier, strats=("filter", "fixedinterval", "fixedpoint"),
                                 calibs=("mle", "mle_nocorr", "dyn", "dyn_relin"), qmax=3, max_steps=4 if quick else 6)
-        # wide base scales
-        e = ck.rng.choice([-20, -10, -3, 0, 3, 10, 20])
+        # wide base scales -- with an exact initial state, where every covariance scales with the base scale and the problem stays
+        # well-conditioned; with O(1) initial standard deviations a base scale of 2^-20 means whitened residuals of 1e6 and a
+        # covariance conditioning of 1e12 (rounding errors of 1e-4 standard deviations in the means), so those keep moderate scales
+        e = ck.rng.choice([-20, -10, -3, 0, 3, 10, 20]) if c["init_mode"] == "exact" else ck.rng.choice([-3, -1, 0, 1, 3])
         if c["kind"] == "iso":
             c["base"] = Fr(2) ** e
         else:
